@@ -191,6 +191,38 @@ def check_rotations(ctx):
         ctx.case(("iso2d", a2.tobytes(), b2.tobytes(), th), True)
         if not (near(M2 @ a2 + P2, R2 @ a2 + t2, 4, 256) and near(M2 @ b2 + P2, R2 @ b2 + t2, 4, 256) and near(M2 @ M2.T, np.eye(2), 1, 64) and near(np.linalg.det(M2), 1, 1, 64)):
             ctx.violate("direct_isometry_2d does not map A->A', B->B' by a proper rotation", {"op": "iso2d", "A": a2.tolist(), "B": b2.tolist(), "theta": th, "t": t2.tolist()}, {"kind": "iso2d"})
+        # targets known to a few decimals only (measured positions): the lengths |AB| and |A'B'| agree to within the function's
+        # own tolerance, not exactly; the map must still be an exact proper rotation (a similarity of ratio |A'B'|/|AB| is not
+        # an isometry) and send one of the two points exactly, the other to within the discrepancy of the data
+        dec = int(rng.integers(5, 9))
+        Ap, Bp = np.round(R2 @ a2 + t2, dec), np.round(R2 @ b2 + t2, dec)
+        lab, lapbp = np.hypot(*(b2 - a2)), np.hypot(*(Bp - Ap))
+        cj3 = {"op": "iso2d_rounded", "A": a2.tolist(), "B": b2.tolist(), "Ap": Ap.tolist(), "Bp": Bp.tolist()}
+        if np.isclose(lab, lapbp) and lab > 1e-3:
+            ctx.case(("iso2d_rounded", dec), True)
+            try:
+                M3, P3 = g.direct_isometry_2d(a2, b2, Ap, Bp)
+                slack = 4 * abs(lab - lapbp) + 1e-12
+                ok3 = (near(M3 @ M3.T, np.eye(2), 1, 64) and near(np.linalg.det(M3), 1, 1, 64)
+                       and min(np.abs(M3 @ a2 + P3 - Ap).max(), np.abs(M3 @ b2 + P3 - Bp).max()) <= 1e-12 * (1 + np.abs(Bp).max())
+                       and max(np.abs(M3 @ a2 + P3 - Ap).max(), np.abs(M3 @ b2 + P3 - Bp).max()) <= slack)
+            except Exception as e:
+                ok3 = False
+                cj3["raised"] = repr(e)
+            if not ok3:
+                ctx.violate("direct_isometry_2d with targets given to a few decimals (lengths equal within its own tolerance) is not a proper rotation sending A, B onto A', B'", cj3, {"kind": "iso2d"})
+        if k % 5 == 0:
+            # coincident points: a pure translation (the rotation is the identity)
+            cj4 = {"op": "iso2d_degenerate", "A": a2.tolist(), "Ap": Ap.tolist()}
+            ctx.case(("iso2d_degenerate",), True)
+            try:
+                M4, P4 = g.direct_isometry_2d(a2, a2, Ap, Ap)
+                ok4 = near(M4 @ M4.T, np.eye(2), 1, 64) and near(np.linalg.det(M4), 1, 1, 64) and near(M4 @ a2 + P4, Ap, 4, 256)
+            except Exception as e:
+                ok4 = False
+                cj4["raised"] = repr(e)
+            if not ok4:
+                ctx.violate("direct_isometry_2d of coincident points is not a proper rotation followed by the translation A->A'", cj4, {"kind": "iso2d"})
         # spherical coordinates
         xyz = rng.normal(size=(5, 3)) * 10.0 ** rng.integers(-3, 3)
         if k % 7 == 0:
